@@ -30,7 +30,7 @@ type fieldSpec struct {
 
 // classValue gives the concrete value of a value class for a key (variant v).
 func classValue(k, c string, v int) string {
-	base := map[string]string{"name": "/vm/", "target": "/vt/", "comm": "", "info": "", "peer": "", "profile": ""}[k]
+	base := map[string]string{"name": "/vm/", "target": "/vt/", "comm": "", "info": "", "peer": "", "profile": "", "srcname": "/vs/"}[k]
 	w := []string{"alpha", "beta"}[v%2]
 	switch c {
 	case "plain":
@@ -53,6 +53,8 @@ func classValue(k, c string, v int) string {
 		return base + w + " needs hex"
 	case "oddq":
 		return base + w + `"quote`
+	case "genpath":
+		return []string{"/home/alice/.local/share/" + w + "/images/", "/run/user/1000/" + w + "/0123456789abcdef0123456789abcdef/old/"}[v%2]
 	}
 	return w
 }
@@ -275,6 +277,8 @@ var nameClasses = [][]string{
 	{"/opt/jdk-21-aarch64/lib/libjvm.so", "/usr/lib/jvm/java-17-openjdk-arm64/bin/java", "/usr/bin/qemu-system-aarch64", "/usr/lib/aarch64-linux-gnu/libc.so.6"},
 	{"/usr/lib/riscv64-linux-gnu/libm.so.6", "/opt/app/ppc64le/bin/tool", "/usr/lib/arm-linux-gnueabihf/libz.so.1", "/opt/x86/app", "/opt/app-amd64.d/conf"},
 	{"/usr/lib/python3.11/site-packages/x.py", "/usr/share/app/en_US.UTF-8/msg", "/var/lib/app/v1.2.3/db", "/dev/pts/3", "/dev/tty1", "/dev/nvme0n1p2"},
+	// bytes outside ASCII (the kernel writes such names hex-encoded)
+	{"/home/alice/T\u00e9l\u00e9chargements/rapport.pdf", "/srv/\u6587\u4ef6/\u8d44\u6599.txt", "/opt/app/na\u00efve caf\u00e9/x"},
 }
 
 func renderRuleRecord(t ruleTuple, n int, variant int) (line string, want map[string]any, name string) {
@@ -290,7 +294,14 @@ func renderRuleRecord(t ruleTuple, n int, variant int) (line string, want map[st
 		qual = "audit"
 	}
 	head := fmt.Sprintf(`type=AVC msg=audit(17000%05d.%03d:%d): apparmor="%s" `, n, n%1000, n, t.Verdict)
-	q := func(s string) string { return `"` + s + `"` }
+	q := func(s string) string {
+		for i := 0; i < len(s); i++ {
+			if s[i] >= 0x7f { // what the kernel does with a value holding such a byte
+				return strings.ToUpper(hex.EncodeToString([]byte(s)))
+			}
+		}
+		return `"` + s + `"`
+	}
 	pidcomm := fmt.Sprintf(` pid=%d comm="cmd"`, 4000+n)
 	parts := strings.SplitN(t.Cls, ":", 2)
 	want = map[string]any{"kind": "", "qual": qual, "mask": []string{}, "ownereligible": false, "tokens": []string{}, "name": name, "profile": prof}
@@ -579,6 +590,51 @@ func checkC16(e *Env, r *Report) {
 		nSig++
 	}
 	r.Coverage["signal_histories"] = nSig
+	// access histories of the other kinds (BEHA): one profile, one object, different accesses
+	accNames := map[string][]string{"unix": {"send receive", "connect", "bind"}, "ptrace": {"read", "trace", "readby"}, "mqueue": {"read", "write", "create"},
+		"io_uring": {"sqpoll", "override_creds", "sqpoll"}, "dbus": {"send", "receive", "send"}}
+	nAcc := 0
+	for hi, h := range res.PrintsWithPrefix("BEHA") {
+		var seq []struct {
+			Kind string `json:"kind"`
+			A    int    `json:"a"`
+		}
+		if err := json.Unmarshal([]byte(h), &seq); err != nil {
+			r.Fatal = "bad BEHA"
+			return
+		}
+		prof := "acc" + lettersOf(hi+1)
+		for k, it := range seq {
+			acc := accNames[it.Kind][(it.A-1)%3]
+			head := fmt.Sprintf(`type=AVC msg=audit(17300%05d.%03d:%d): apparmor="ALLOWED" `, hi, k, hi*10+k)
+			pidcomm := fmt.Sprintf(` pid=%d comm="cmd"`, 7000+hi)
+			line, kind := "", it.Kind
+			toks := strings.Fields(acc)
+			switch it.Kind {
+			case "unix":
+				line = head + fmt.Sprintf(`operation="connect" class="net" profile="%s"%s family="unix" sock_type="stream" protocol=0 requested_mask="%s" denied_mask="%s" addr=none peer_addr="@/tmp/dbus-x" peer="peerlabel"`, prof, pidcomm, acc, acc)
+				toks = append(toks, "stream", "peerlabel")
+			case "ptrace":
+				line = head + fmt.Sprintf(`operation="ptrace" class="ptrace" profile="%s"%s requested_mask="%s" denied_mask="%s" peer="peerlabel"`, prof, pidcomm, acc, acc)
+				toks = append(toks, "peerlabel")
+			case "mqueue":
+				line = head + fmt.Sprintf(`operation="open" class="posix_mqueue" profile="%s" name="/vgenqueue"%s requested="%s" denied="%s" label="objlabel" fsuid=1000 ouid=1000`, prof, pidcomm, acc, acc)
+				toks = append(toks, "/vgenqueue")
+			case "io_uring":
+				line = head + fmt.Sprintf(`operation="uring_%s" class="io_uring" profile="%s"%s requested="%s" denied="%s" label="objlabel"`, acc, prof, pidcomm, acc, acc)
+				toks = append(toks, "objlabel")
+			case "dbus":
+				line = head + fmt.Sprintf(`operation="dbus_method_call" bus="session" path="/org/vgen/Obj" interface="org.vgen.Iface" member="DoIt" mask="%s" name="org.vgen.Svc" pid=%d label="%s" peer_pid=77 peer_label="peerlabel"`, acc, 7000+hi, prof)
+				toks = append(toks, "session", "/org/vgen/Obj", "DoIt")
+			}
+			want := map[string]any{"kind": kind, "qual": "", "mask": []string{}, "ownereligible": false, "tokens": toks, "name": "", "profile": prof}
+			batch = append(batch, line)
+			pend = append(pend, pending{want: want, name: "", t: ruleTuple{Cls: it.Kind, Mask: acc, Verdict: "ALLOWED"}, hist: "acchist:" + h})
+		}
+		flush()
+		nAcc++
+	}
+	r.Coverage["access_histories"] = nAcc
 	// rlimit histories: several limits of one resource for one profile (values of different lengths)
 	for hi, vals := range [][]string{{"524288", "8192", "1048576"}, {"8192", "1048576"}, {"70", "9", "100"}, {"infinity", "1024"}} {
 		prof := "rlim" + lettersOf(hi+1)
